@@ -168,6 +168,12 @@ func c05Shapes() []c05shape {
 			Values: []any{gen.S{"role": "admin", "id": 7.0}, gen.S{"role": "admin"}, gen.S{"id": 7.0, "ok": true}}},
 		{Name: "object-constrained", Kind: "object", Schema: gen.S{"type": "object", "properties": gen.S{"role": gen.S{"type": "string", "enum": gen.Arr("admin", "user")}, "id": gen.S{"type": "integer", "minimum": 1.0}}, "maxProperties": 1.0},
 			Values: []any{gen.S{"role": "admin"}, gen.S{"role": "root"}, gen.S{"id": 0.0}, gen.S{"id": 4.0}, gen.S{"role": "user", "id": 4.0}}},
+		// schemas without "type": the text is the value (there is nothing to convert it to)
+		{Name: "typeless-enum", Kind: "prim", Schema: gen.S{"enum": gen.Arr("red", "green")}, Values: []any{"red", "green", "blue"}},
+		{Name: "typeless-constrained", Kind: "prim", Schema: gen.S{"minLength": 2.0, "pattern": "^[a-z]+$"}, Values: []any{"ab", "a", "AB"}},
+		// an object of which nothing but the type of its values is said
+		{Name: "object-free-form", Kind: "object", Schema: gen.S{"type": "object", "additionalProperties": gen.S{"type": "string"}},
+			Values: []any{gen.S{"a": "x"}, gen.S{"a": "x", "b": "y"}}},
 		{Name: "int32-enum", Kind: "prim", Schema: gen.S{"type": "integer", "format": "int32", "enum": gen.Arr(1.0, 2.0)}, Values: []any{1.0, 2.0, 3.0}},
 		{Name: "int64-enum", Kind: "prim", Schema: gen.S{"type": "integer", "format": "int64", "enum": gen.Arr(1.0, 9007199254740991.0)}, Values: []any{1.0, 9007199254740991.0, 3.0}},
 		{Name: "number-float-enum", Kind: "prim", Schema: gen.S{"type": "number", "format": "float", "enum": gen.Arr(1.5, 2.0)}, Values: []any{1.5, 2.0, 2.5}},
@@ -392,6 +398,12 @@ func c05Group(c *core.Ctx, cell c05cell, sh c05shape, required bool, qname strin
 			if sh.Escape {
 				f["percent_encoded"] = "true"
 			}
+			if strings.HasPrefix(sh.Name, "typeless-") {
+				f["schema_without_type"] = "true"
+			}
+			if sh.Name == "object-free-form" {
+				f["free_form_object"] = "true"
+			}
 			return f
 		}
 		// (1) decoding is the inverse of serialisation
@@ -505,7 +517,7 @@ func c05Group(c *core.Ctx, cell c05cell, sh c05shape, required bool, qname strin
 	// PRNG-drawn values of the shape
 	r := c.Rng("values/" + cell.String() + "/" + sh.Name + "/" + qname)
 	for i, n := 0, c.Pick(6, 4000); i < n; i++ {
-		if strings.HasSuffix(sh.Name, "-declared-and-additional") {
+		if strings.HasSuffix(sh.Name, "-declared-and-additional") || sh.Name == "object-free-form" {
 			break // (the value generator draws property names of the other object shapes)
 		}
 		if v := c05RandomValue(r, sh); v != nil {
